@@ -632,7 +632,7 @@ impl Family for TemporalBin {
         "temporal-exhaustive-binary".into()
     }
     fn len(&self) -> u64 {
-        839 + 10000 + 24
+        839 + 10000 + 24 + 1
     }
     fn run(&self, idx: u64, st: &mut Stats) -> Result<(), Violation> {
         st.nontrivial += 1;
@@ -666,6 +666,26 @@ impl Family for TemporalBin {
             }
             Ok(())
         };
+        if idx == 839 + 10000 + 24 {
+            // microsecond values of every decimal shape, midnight and other times, days boundaries
+            let base = NaiveDate::from_ymd_opt(2024, 2, 29).unwrap();
+            for us in super::c06::USX {
+                for (h, m, sec) in [(0u32, 0u32, 0u32), (0, 0, 1), (12, 34, 56), (23, 59, 59)] {
+                    check(&Val::DateTime(base.and_hms_micro_opt(h, m, sec, us).unwrap()), 0x0c, ColumnType::MYSQL_TYPE_DATETIME)?;
+                    check(&Val::DateTime(base.and_hms_micro_opt(h, m, sec, us).unwrap()), 0x07, ColumnType::MYSQL_TYPE_TIMESTAMP)?;
+                    n += 2;
+                }
+                for hours in [0u64, 1, 23, 24, 25, 47, 48, 72, 100, 240, 815, 816] {
+                    for (m, sec) in [(0u64, 0u64), (59, 59), (7, 3)] {
+                        check(&Val::Dur(Duration::new(hours * 3600 + m * 60 + sec, us * 1000)), 0x0b, ColumnType::MYSQL_TYPE_TIME)?;
+                        n += 1;
+                    }
+                }
+            }
+            st.add("binary_microsecond_shapes", n);
+            st.evals += n.saturating_sub(1);
+            return Ok(());
+        }
         if idx < 839 {
             let h = idx;
             for m in 0..60u64 {
@@ -713,7 +733,9 @@ impl Family for TemporalBin {
         Ok(())
     }
     fn describe(&self, idx: u64) -> J {
-        if idx < 839 {
+        if idx == 839 + 10000 + 24 {
+            json!({"microseconds": super::c06::USX, "at": "4 times of day and 36 durations"})
+        } else if idx < 839 {
             json!({"every_second_of_duration_hour": idx, "microseconds": USB})
         } else if idx < 10839 {
             json!({"every_day_of_year": idx - 839})
@@ -947,7 +969,7 @@ pub fn build(quick: bool) -> Check {
     Check {
         id: "C07",
         level: "model_checking",
-        rule: format!("binary resultsets through the real run_on, decoded from the advertised column definitions by refwire and cell by cell by mysql_common's BinValue: column counts 1..{} x all 2^n NULL patterns (three rows: pattern, complement, pattern) with 12 cycling column types of different widths; column counts up to 1000 with structured patterns (none, all, every single NULL / non-NULL, alternations, prefixes/suffixes ending around every multiple of 8); NULL into NOT NULL for all patterns of <= 6 columns x 4 flag placements; the matrix of {} value sources x all 31 column types x signedness x NOT NULL; at the to_mysql_bin seam every second of 0..838:59:59 x 3 microsecond values as TIME, every calendar date of years 0..9999 as DATE, every second of a day x 3 microsecond values as DATETIME; a refused cell (NULL into NOT NULL, wrong type, out of range, invalid generic date/time) at each column followed by a replacement value; rows built partly by write_col and partly by write_row over columns of different width and signedness, every split point, with values that fit a neighbouring column but not their own. Oracle: decoded cells equal the written values, bitmap bits = NULL cells exactly, natural pairings accepted, anything accepted is exact, mismatches refused without emitting undecodable output. Non-trivial = bitmap crosses a byte boundary or a type pairing the unit tests never make.", if quick {12} else {14}, value_palette().len()),
+        rule: format!("binary resultsets through the real run_on, decoded from the advertised column definitions by refwire and cell by cell by mysql_common's BinValue: column counts 1..{} x all 2^n NULL patterns (three rows: pattern, complement, pattern) with 12 cycling column types of different widths; column counts up to 1000 with structured patterns (none, all, every single NULL / non-NULL, alternations, prefixes/suffixes ending around every multiple of 8); NULL into NOT NULL for all patterns of <= 6 columns x 4 flag placements; the matrix of {} value sources x all 31 column types x signedness x NOT NULL; at the to_mysql_bin seam every second of 0..838:59:59 x 3 microsecond values as TIME, every calendar date of years 0..9999 as DATE, every second of a day x 3 microsecond values as DATETIME, 22 microsecond values of every decimal shape at midnight and other times and at day boundaries of TIME; a refused cell (NULL into NOT NULL, wrong type, out of range, invalid generic date/time) at each column followed by a replacement value; rows built partly by write_col and partly by write_row over columns of different width and signedness, every split point, with values that fit a neighbouring column but not their own. Oracle: decoded cells equal the written values, bitmap bits = NULL cells exactly, natural pairings accepted, anything accepted is exact, mismatches refused without emitting undecodable output. Non-trivial = bitmap crosses a byte boundary or a type pairing the unit tests never make.", if quick {12} else {14}, value_palette().len()),
         assumptions: vec!["integer range rules are C15's; here an accepted integer must be exact".into()],
         bounds: json!({"exhaustive_null_patterns_up_to_columns": if quick {12} else {14}, "max_columns": 1000}),
         exhaustive: true,
